@@ -186,43 +186,6 @@ def d3(chk, prog):
     tb.done("access does not run scan -> contig filter (iff asked) -> exclude -> join, or filters the wrong contigs")
 
 
-def d4(chk, prog):
-    chk.clause("D4", "scanner positions are tested with `is None`, never for truth")
-    chk.rule("none-vs-zero", "a variable that holds None or a sequence offset (run_start, cursor) must not be tested by truthiness: offset 0 is falsy, so a run that starts "
-             "at the first base of a sequence would be treated as 'no run'")
-    fi = prog.fn(f"{ACC}.get_regions")
-    positions = set()
-    for n in own_nodes(fi.node):
-        if isinstance(n, ast.Assign):
-            tg = [t for t in n.targets]
-            names = [x.id for t in tg for x in ast.walk(t) if isinstance(x, ast.Name)]
-            if isinstance(n.value, ast.Constant) and n.value.value is None:
-                positions |= set(names)
-    positions &= {"run_start", "cursor"} | {v for v in positions if "start" in v or "cursor" in v or "pos" in v}
-    if "run_start" not in positions:
-        raise AnalysisError("get_regions: run_start is no longer initialised to None (scanner restructured); cannot apply the rule")
-    n_tests = 0
-    for n in own_nodes(fi.node):
-        tests = []
-        if isinstance(n, (ast.If, ast.While, ast.IfExp)):
-            tests.append(n.test)
-        elif isinstance(n, ast.BoolOp):
-            tests += n.values
-        elif isinstance(n, ast.UnaryOp) and isinstance(n.op, ast.Not):
-            tests.append(n.operand)
-        for t in tests:
-            if isinstance(t, ast.Name) and t.id in positions:
-                chk.violate("none-vs-zero", f"{fi.qn}::truth test of {t.id}", fi.loc(t), f"`{t.id}` is tested for truth; it is None or an offset, and offset 0 (a run starting at the first base "
-                            "of a sequence) is falsy: the region is silently dropped", witness=dict(example=">chr2 / ACGT... (no N at all) followed by another record"))
-            if isinstance(t, ast.Compare) and isinstance(t.left, ast.Name) and t.left.id in positions and isinstance(t.ops[0], (ast.Is, ast.IsNot)):
-                n_tests += 1
-    chk.floor("`is None` tests of the run start", n_tests, 4)
-    chk.ok("none-vs-zero", f"{n_tests} tests of {sorted(positions)} use `is None` / `is not None`", where=fi.loc(), cells=n_tests)
-    # the last run of a record and of the file are emitted
-    emits = [n for n in own_nodes(fi.node) if isinstance(n, ast.Yield)]
-    chk.floor("yields in get_regions", len(emits), 5)
-
-
 def d5(chk, prog):
     chk.clause("D5", "the `access` command line: every -x / --exclude file given, in order, and -s reach do_access")
     from .. import argmodel
@@ -274,7 +237,6 @@ def run(chk):
     d2b(chk, prog)
     d3(chk, prog)
     d5(chk, prog)
-    d4(chk, prog)
 
 
 _A = "cnvlib/access.py"
